@@ -108,6 +108,33 @@ def check(tier, seed):
                     return f'{C.hexs(m1)} {C.hexs(m2)} {C.hexs(f.data)}'
                 c, i = e['cid']
                 cases.append(Case('to_bytes-real-class', f'tobytes {c} {i} {C.hexs(p)}', C.guarded(run), {'class': name, 'len': n, 'payload_hex': C.hexs(p), 'cls': c, 'id': i, 'style': 'rand'}, nontrivial=n >= 1, kind='real-class'))
+        # one frame object through a history of pack / serialise / edit / pack / serialise (what a server does when the same
+        # frame is sent again with another field value): every serialisation carries the payload produced by the pack() before it
+        for name, e in sorted(mt.items()):
+            if e['kind'] == 'ctor-args':
+                continue
+
+            def run_hist(cls=e['cls']):
+                f = cls()
+                ints = [n_ for n_, it in f.f._fields.items() if isinstance(getattr(it, 'value', None), int) and not isinstance(it.value, bool)
+                        and type(it).__name__[:1] in 'UIX']
+                out = []
+                for step in range(3):
+                    if ints and step:
+                        setattr(f.f, ints[(step - 1) % len(ints)], step)
+                    f.pack()
+                    m = bytes(f.to_bytes())
+                    out.append((bytes(f.data), m))
+                return out
+            r = C.guarded(run_hist)
+            c, i = e['cid']
+            if isinstance(r, str):
+                cases.append(Case('to_bytes-pack-edit-pack', f'wire {c} {i} -', r, {'class': name, 'cls': c, 'id': i, 'len': 0, 'payload_hex': '-', 'style': 'pack-edit-pack'}, kind='pack-edit-pack'))
+                continue
+            for step, (pl, m) in enumerate(r):
+                cases.append(Case('to_bytes-pack-edit-pack', f'wire {c} {i} {C.hexs(pl)}', C.hexs(m),
+                                  {'class': name, 'cls': c, 'id': i, 'len': len(pl), 'payload_hex': C.hexs(pl), 'style': f'pack-edit-pack step {step}'},
+                                  nontrivial=step > 0, kind='pack-edit-pack'))
         # a never-packed frame whose default payload buffer is extended in place must not affect other fresh frames
         from ubxlib.cid import UbxCID
         from ubxlib.frame import UbxFrame
@@ -226,6 +253,28 @@ def check(tier, seed):
 def replay(obj):
     C.import_impl()
     i = obj['input']
+    if str(i.get('style', '')).startswith('pack-edit-pack'):
+        from .. import reflect as R_
+        e = R_.message_table()[i['class']]
+        f = e['cls']()
+        ints = [n_ for n_, it in f.f._fields.items() if isinstance(getattr(it, 'value', None), int) and not isinstance(it.value, bool)
+                and type(it).__name__[:1] in 'UIX']
+        bad = 0
+        for step in range(3):
+            if ints and step:
+                setattr(f.f, ints[(step - 1) % len(ints)], step)
+            f.pack()
+            m = bytes(f.to_bytes())
+            pl = bytes(f.data)
+            a = b_ = 0
+            body = bytes([i['cls'], i['id'], len(pl) & 255, len(pl) >> 8]) + pl
+            for x in body:
+                a = (a + x) & 255
+                b_ = (b_ + a) & 255
+            want = b'\xb5\x62' + body + bytes([a, b_])
+            print(f'step {step}: payload {pl.hex()} serialised {m.hex()} expected {want.hex()}')
+            bad += m != want
+        return 1 if bad else 0
     h = i['payload_hex']
     if h.endswith('...'):
         print('payload truncated in replay; length', i['len'])
